@@ -305,7 +305,7 @@ impl Run {
                         self.m.files[f].phys.extend_from_slice(&buf);
                         self.m.files[f].accounted += n as u64;
                         let used = self.dm.used_disk_space();
-                        if used >= self.m.limit {
+                        if used > self.m.limit {
                             return Err(format!(
                                 "write of {n} bytes was admitted taking used_disk_space() from {before} to {used} > limit {}",
                                 self.m.limit
@@ -476,7 +476,7 @@ fn run_case(c: &Case, all_steps: bool, mut trace: Option<&mut Vec<String>>) -> R
 }
 
 fn explore(ctx: &Ctx) {
-    let depth = std::env::var("VERIF_C21_DEPTH").ok().and_then(|s| s.parse().ok()).unwrap_or(ctx.pick(10, 14));
+    let depth = std::env::var("VERIF_C21_DEPTH").ok().and_then(|s| s.parse().ok()).unwrap_or(ctx.pick(12, 18));
     ctx.set_extra(
         "bounds",
         json!({"max_depth": depth, "write_sizes": [SMALL, LARGE], "os_failure_after_bytes": [0, 2], "limits": ["0", LARGE.to_string(), "unlimited"],
